@@ -3,6 +3,7 @@ package props
 import (
 	"fmt"
 	"runtime/debug"
+	"strings"
 
 	"github.com/fluhus/biostuff/formats/newick"
 
@@ -377,7 +378,7 @@ func runC19(r *core.Run) {
 			return core.Outcome{Class: fmt.Sprint("nodes=", len(nodes)), Nontrivial: len(nodes) >= 2, Evals: evals}
 		})
 
-	core.Clause(r, "degenerate", core.Opts{Serial: true, Rule: "chain of depth n, star with n children, comb (chain with a leaf at every level), for the listed n; non-trivial = all"},
+	core.Clause(r, "degenerate", core.Opts{Serial: true, Rule: "chain of depth n, star with n children, comb (chain with a leaf at every level), combs whose side children are inner nodes (met before / after the deep descent, at every level on the way back up), and roots whose children are every sequence of up to 3 of {chain of n nodes, inner node, leaf} with at least one chain (deep dip, back to the root, further subtrees), for the listed n; non-trivial = all"},
 		func(emit func(c19Big) bool) {
 			for _, n := range []int{1000, 100000, 1000000} {
 				emit(c19Big{"chain", n})
@@ -387,6 +388,21 @@ func runC19(r *core.Run) {
 			}
 			for _, n := range []int{1000, 200000} {
 				emit(c19Big{"comb", n})
+			}
+			// dips: a very deep lineage, then back up, then further subtrees (inner nodes and leaves) at
+			// every level on the way / at the root: whatever the traversal keeps per level must survive
+			// the stack having been large and small again
+			for _, n := range []int{1000, 70000, 300000} {
+				emit(c19Big{"comb-inner-after", n})
+				emit(c19Big{"comb-inner-before", n})
+			}
+			for _, n := range core.Pick(r, []int{70000}, []int{70000, 300000, 1 << 20}) {
+				enum.Strings("DIL", 3, func(sh string) bool {
+					if strings.Contains(sh, "D") {
+						emit(c19Big{"root:" + sh, n})
+					}
+					return true
+				})
 			}
 		},
 		func(c c19Big) core.Outcome {
@@ -400,12 +416,41 @@ func runC19(r *core.Run) {
 			case "star":
 				code = make([]int, c.N+1)
 				code[0] = c.N
+			case "comb-inner-after": // spine node i has children [spine i+1, S_i -> s_i]: inner nodes met on the way back up
+				for i := 0; i < c.N-1; i++ {
+					code = append(code, 2)
+				}
+				code = append(code, 0)
+				for i := 0; i < c.N-1; i++ {
+					code = append(code, 1, 0)
+				}
+			case "comb-inner-before": // spine node i has children [S_i -> s_i, spine i+1]
+				for i := 0; i < c.N-1; i++ {
+					code = append(code, 2, 1, 0)
+				}
+				code = append(code, 0)
 			case "comb": // each spine node has a leaf child and the next spine node
 				code = make([]int, 0, 2*c.N+1)
 				for i := 0; i < c.N; i++ {
 					code = append(code, 2, 0)
 				}
 				code = append(code, 0)
+			}
+			if sh, ok := strings.CutPrefix(c.Kind, "root:"); ok { // the root's children: D = chain of N nodes, I = inner node with one leaf, L = leaf
+				code = append(code, len(sh))
+				for _, k := range sh {
+					switch k {
+					case 'D':
+						for i := 0; i < c.N-1; i++ {
+							code = append(code, 1)
+						}
+						code = append(code, 0)
+					case 'I':
+						code = append(code, 1, 0)
+					case 'L':
+						code = append(code, 0)
+					}
+				}
 			}
 			root, nodes := buildTree(code)
 			return checkTraversal(root, nodes, fmt.Sprintf("%s(%d)", c.Kind, c.N))
